@@ -451,8 +451,20 @@ def run(ck: Check):
             else:
                 stats["docs_ok"] += 1
                 if di in bad_pa:
-                    ck.failure("corr-parse-abstract", "the real parser accepts a document the slot-assignment abstract rejects",
+                    # the abstract says a child has no slot (or a required one stays empty) yet nothing was raised:
+                    # consistent only if the output lost something (bind_var returns False -> "Unassigned parsed object")
+                    if di in bad_unord and rejecting[di]:
+                        for ci, code in rejecting[di]:
+                            fl = flags[k][ci] if ci < len(flags[k]) else None
+                            cls = classify(fl, gns[k], code) if fl else None
+                            el = run["p"]["d"]["elements"][ci]["name"] if fl else "?"
+                            ck.failure(cls or "valid-document-children-dropped",
+                                       f"valid document parsed without error but children of {el} were silently dropped [code {code}]",
+                                       replay_of(run, doc=doc, out=dr["ok"], element=el))
+                        continue
+                    ck.failure("corr-parse-abstract", "the real parser keeps everything of a document the slot-assignment abstract rejects",
                                replay_of(run, doc=doc, rejecting=rejecting[di]))
+                    continue
                 if di in bad_unord:
                     cls = KNOWN["ns"] if not gns[k] else (
                         KNOWN["tail"] if di in has_wt else (KNOWN["ws"] if di in has_ws else (
